@@ -42,7 +42,10 @@ from resonaate.dynamics.integration_events.finite_thrust import (  # noqa: E402
     planeChangeThrust,
     spiralThrust,
 )
-from resonaate.dynamics.integration_events.scheduled_impulse import ScheduledECIImpulse  # noqa: E402
+from resonaate.dynamics.integration_events.scheduled_impulse import (  # noqa: E402
+    ScheduledECIImpulse,
+    ScheduledImpulse,
+)
 from resonaate.physics.time.stardate import ScenarioTime  # noqa: E402
 from resonaate.scenario.clock import ScenarioClock  # noqa: E402
 from resonaate.scenario.config import ScenarioConfig  # noqa: E402
@@ -301,6 +304,21 @@ def items(tier, seed):
             rels = [[i, name, list(a), list(b)] for i, (name, a, b) in enumerate(_relations(dt))]
             for chunk in fw.chunked(rels, 2):
                 out.append(("scenario2", model, dt, seed, chunk))
+    # a finite event and an impulse of the same agent at one instant (and propagateBulk with several events)
+    for chunk in fw.chunked([[a, b] for i, a in enumerate(PROTO_TIMES) for b in PROTO_TIMES[i + 1:]], 15):
+        out.append(("protocol_ci", seed, chunk))
+    for chunk in fw.chunked([[list(iv) for iv in ch] for ch in _chains(PROTO_CI2_TIMES, 2)], 6):
+        out.append(("protocol_ci2", seed, chunk))
+    for model, dt in _ci_dims(tier):
+        for kind in KINDS:
+            for idx in range(len(_ci_intervals(dt))):
+                out.append(("coincide", model, dt, kind, seed, idx))
+        out.append(("columns2", model, dt, seed))
+    for model in MODELS:
+        for dt in scen_dts:
+            pats = [[i, where, list(iv), ti] for i, (where, iv, ti) in enumerate(_scenario_ci_patterns(dt))]
+            for chunk in fw.chunked(pats, 2):
+                out.append(("scenario_ci", model, dt, seed, chunk))
     return out
 
 
@@ -460,7 +478,7 @@ def _classify(res, sub_prefix, level, model, case, lib_states, times, y0, gravit
               ref=None):
     """Compare the library trajectory with the reference; on a mismatch decide whether one of the recorded
     defects explains it exactly (thrust kept on to the end of the step containing the burn end / no thrust at all /
-    one of the ``extra_hyp`` = [(label, burns)] alternatives supplied by the caller)."""
+    one of the ``extra_hyp`` = [(label, burns[, impulses])] alternatives supplied by the caller)."""
     mname = MODELS[model]
     if ref is None:  # callers that fly one schedule several ways pass the reference they already integrated
         ref = orc.integrate(gravity, y0, 0.0, times, burns_nominal, impulses)
@@ -490,8 +508,9 @@ def _classify(res, sub_prefix, level, model, case, lib_states, times, y0, gravit
                 label = "burn_inside_one_integrator_step_skipped" if skipped else "no_thrust_applied"
                 explained_states = ref_n
         if label == "unexplained":
-            for hyp_label, hyp_burns in extra_hyp:
-                ref_h = orc.integrate(gravity, y0, 0.0, times, hyp_burns, impulses)
+            for hyp in extra_hyp:  # (label, burns) or (label, burns, impulses)
+                hyp_label, hyp_burns = hyp[0], hyp[1]
+                ref_h = orc.integrate(gravity, y0, 0.0, times, hyp_burns, hyp[2] if len(hyp) > 2 else impulses)
                 if _compare(lib_states, ref_h, times)[2] is None:
                     label = hyp_label
                     explained_states = ref_h
@@ -1356,6 +1375,30 @@ def _run_sched2(res, item):
             res.states += n_steps + 1
             res.transitions += n_steps
             res.traces += 1
+            # the same schedule, same list order, through ONE propagateBulk call with the step boundaries as output
+            # times (what the adaptive / particle filters call): the same states at every output time
+            bcase = dict(case, mode="bulk")
+            try:
+                WATCHDOG.reset()
+                evs = [_thrust_obj(sp, ts, te, agent.simulation_id) for ts, te, sp in in_queue_order]
+                out = np.array(world.agent(pos, vel).dynamics.propagateBulk(
+                    [ScenarioTime(0.0)] + [ScenarioTime(t) for t in times], y0[:, None].copy(), scheduled_events=evs),
+                    dtype=float)
+                if out.shape != (6, 1, n_steps):
+                    raise AssertionError(f"propagateBulk returned shape {out.shape}")
+            except Exception as exc:  # noqa: BLE001
+                res.case("bulk_sched2/interval", bcase, False, nontrivial=True,
+                         signature=f"C15/bulk_sched2/interval/{MODELS[model]}/{region}/error",
+                         observed=f"{type(exc).__name__}: {exc}"[:300], outcome="error", item=one)
+                EventStack.logAndFlushEvents()
+                continue
+            EventStack.logAndFlushEvents()
+            # one call: "the step that contains the end" is the whole call; a start missed at a previous end is never
+            # re-armed by a next call
+            hyp_b = _missed_touching_start(in_queue_order, times[-1])
+            _classify(res, "bulk_sched2", "bulk_sched2", model, bcase, [out[:, 0, k] for k in range(n_steps)], times, y0,
+                      gravity, burns, burns, times[-1], item=one, coast=coast, region=region, ref=ref,
+                      extra_hyp=[("start_at_previous_end_missed", hyp_b)] if hyp_b is not None else ())
 
 
 def _run_scenario2(res, item):
@@ -1578,6 +1621,533 @@ def _run_protocol2(res, item):
         EventStack.logAndFlushEvents()
 
 
+# ---------------------------------------------------------------------------------------------- coincident events
+# A finite event and ANOTHER event of the same agent at one instant.  Every scheduled event is a terminal solve_ivp
+# event; of several terminal events found at one time the solver reports only the first in the list and the
+# integration restarts after the time of the others.  What is enumerated: an impulse (ECI / NTW frame) exactly at the
+# burn start, exactly at the burn end, inside and outside the burn x every thrust kind x burn start / end on and off the
+# call boundaries x both list orders x three ways of flying the schedule: Celestial.propagate in one call, split over
+# step-sized calls (real TargetAgent, queue delivered and pruned as the propagation job does) and
+# Celestial.propagateBulk with the step boundaries as output times.  Oracle: the independent integration (thrust on only
+# inside [t_start, t_end], the delta-v added once, at its instant, in the frame of the state it finds).
+CI_DV = {"eci": [1.0e-3, -2.0e-3, 0.5e-3], "ntw": [0.5e-3, 2.0e-3, -1.0e-3]}  # km/s; 100x the delta-v of 1 s of thrust
+CI_MODES = ["one_call", "split", "bulk"]
+CI_ORDERS = ["impulse_first", "burn_first"]
+CI_STEPS = 4
+
+
+def _ci_dv(frame, seed):
+    sgn = -1.0 if seed % 2 else 1.0
+    return [sgn * x for x in CI_DV[frame]]
+
+
+def _ci_intervals(dt):
+    return [
+        (dt + 1, 2 * dt + dt // 2),  # start and end off the grid, across a boundary
+        (dt, 2 * dt),  # start and end on the grid
+        (dt + 1, 2 * dt),  # start off, end on the grid
+        (dt, 2 * dt + 7),  # start on, end off the grid
+        (dt + dt // 2, 2 * dt - 1),  # inside one step
+    ]
+
+
+def _ci_positions(dt, idx):
+    """[(relation of the impulse to the burn, impulse instant)] for interval ``idx`` of ``_ci_intervals``."""
+    ts, te = _ci_intervals(dt)[idx]
+    out = [("at_start", float(ts)), ("at_end", float(te)), ("inside", 0.5 * (ts + te))]
+    if ts < 2 * dt < te:
+        out.append(("inside", float(2 * dt)))  # inside the burn, on a step boundary
+    if idx in (0, 1):
+        out.append(("outside", float(3 * dt + 7)))  # after the burn, in the free-flying step
+    return out
+
+
+def _ci_region(pos, ti, dt):
+    return f"impulse_{pos}_{'on' if _on_grid(ti, dt) else 'off'}_grid"
+
+
+def _is_impulse(event):
+    return isinstance(event, ScheduledImpulse)
+
+
+def _thrust_obj(spec, ts, te, agent_id):
+    if spec["kind"] in ("eci", "ntw"):
+        func = partial(ThrustFrame(spec["kind"]).thrust, acc_vector=np.array(spec["acc"], dtype=float))
+        return ScheduledFiniteBurn(ScenarioTime(ts), ScenarioTime(te), func, agent_id)
+    func = partial(ManeuverType(spec["kind"]).thrust, magnitude=spec["mag"])
+    return ScheduledFiniteManeuver(ScenarioTime(ts), ScenarioTime(te), func, agent_id)
+
+
+def _impulse_obj(ti, dv, frame, agent_id):
+    return ThrustFrame(frame).impulse(ScenarioTime(ti), np.array(dv, dtype=float), agent_id)
+
+
+def _ci_dims(tier):
+    if tier == "thorough":
+        return [("special_perturbations", 60), ("special_perturbations", 300), ("two_body", 30), ("two_body", 60),
+                ("two_body", 300), ("two_body", 450)]
+    # the coincidence handling lives in Celestial (shared); SpecialPerturbations is flown at one step size in the quick tier
+    return [("special_perturbations", 60), ("two_body", 60), ("two_body", 300)]
+
+
+def _run_coincide(res, item):
+    _, model, dt, kind, seed, idx = item
+    idx = int(idx)
+    start = _epoch(seed)
+    world = World(model, dt, start, CI_STEPS)
+    spec = _spec(kind, seed)
+    pos, vel = _orbit("up", dt, seed)
+    times = [float((j + 1) * dt) for j in range(CI_STEPS)]
+    t_final = times[-1]
+    ts, te = (float(x) for x in _ci_intervals(dt)[idx])
+    burns = [(ts, te, spec)]
+    probe = world.agent(pos, vel)
+    gravity = world.gravity(probe)
+    y0 = np.array(probe.eci_state, dtype=float)
+    aid = probe.simulation_id
+    for where, ti in _ci_positions(dt, idx):
+        for frame in ("eci", "ntw"):
+            dv = _ci_dv(frame, seed)
+            imps = [(ti, dv, frame)]
+            ref = orc.integrate(gravity, y0, 0.0, times, burns, imps)
+            coast = orc.integrate(gravity, y0, 0.0, times, [], imps)
+            region = _ci_region(where, ti, dt)
+            for order in CI_ORDERS:
+                for mode in CI_MODES:
+                    case = {"model": MODELS[model], "dt": dt, "kind": kind, "t_start": ts, "t_end": te,
+                            "impulse_at": ti, "impulse_frame": frame, "impulse_relation": where, "queue_order": order,
+                            "mode": mode, "start_on_grid": _on_grid(ts, dt), "end_on_grid_nominal": _on_grid(te, dt)}
+                    level = f"coincide_{mode}"
+                    lib, err = [], None
+                    del STEP_LOG[:]
+                    try:
+                        if mode == "split":
+                            agent = world.agent(pos, vel)
+                            for _ in range(CI_STEPS):
+                                t_k = float(agent.time)
+                                # delivery as Scenario.stepForward does it: start <= t_k+dt and end > t_k
+                                if ts <= t_k + dt and te > t_k:
+                                    _make_event(agent, spec, ts, te, "direct", start)
+                                if t_k < ti <= t_k + dt:
+                                    agent.appendPropagateEvent(_impulse_obj(ti, dv, frame, agent.simulation_id))
+                                # the order in which rows come back from the database is not specified (stable sort)
+                                agent.propagate_event_queue.sort(
+                                    key=(lambda e: not _is_impulse(e)) if order == "impulse_first" else _is_impulse)
+                                agent.prunePropagateEvents()
+                                lib.append(_step_agent(agent))
+                            out_times = times
+                        else:
+                            dyn = world.agent(pos, vel).dynamics
+                            evs = [_impulse_obj(ti, dv, frame, aid), _thrust_obj(spec, ts, te, aid)]
+                            if order == "burn_first":
+                                evs = evs[::-1]
+                            WATCHDOG.reset()
+                            if mode == "one_call":
+                                out = dyn.propagate(ScenarioTime(0.0), ScenarioTime(t_final), y0.copy(),
+                                                    scheduled_events=evs)
+                                lib = [np.array(out, dtype=float)]
+                                out_times = [t_final]
+                            else:
+                                out = dyn.propagateBulk([ScenarioTime(0.0)] + [ScenarioTime(t) for t in times],
+                                                        y0[:, None].copy(), scheduled_events=evs)
+                                out = np.array(out, dtype=float)
+                                if out.shape != (6, 1, CI_STEPS):
+                                    raise AssertionError(f"propagateBulk returned shape {out.shape}")
+                                lib = [out[:, 0, k] for k in range(CI_STEPS)]
+                                out_times = times
+                    except PropagationStall as exc:
+                        err = str(exc)
+                    except Exception as exc:  # noqa: BLE001
+                        err = f"{type(exc).__name__}: {exc}"
+                    EventStack.logAndFlushEvents()
+                    if err is not None:
+                        res.case(f"{level}/interval", case, False, nontrivial=True,
+                                 signature=f"C15/{level}/interval/{MODELS[model]}/{region}/error", observed=err[:300],
+                                 expected="propagates", outcome="error", item=item)
+                        res.observe(err[:80])
+                        continue
+                    # within one call there are no step boundaries: "the step that contains the end" is the call
+                    step = dt if mode == "split" else t_final
+                    _classify(res, level, level, model, case, lib, out_times, y0, gravity, burns, burns, step,
+                              impulses=imps, item=item, nontrivial=True, coast=coast, region=region, ref=ref,
+                              extra_hyp=[("coincident_impulse_dropped", burns, [])])
+                    res.states += len(out_times) + 1
+                    res.transitions += len(out_times)
+                    res.traces += 1
+
+
+# ---- the same on the gravity-free harness dynamics, exhaustively, closed-form oracle
+PROTO_CI_DV = [1.0e-3, -2.0e-3, 0.5e-3]
+PROTO_CI_CALLS = 3  # [0,60], [60,120], [120,180]
+
+
+def _ff_state(y0, burns, imps, t):
+    """Closed form for the gravity-free harness with ECI burns and ECI impulses: state at time t."""
+    r = np.array(y0[:3], dtype=float) + np.array(y0[3:], dtype=float) * t
+    v = np.array(y0[3:], dtype=float)
+    for ts, te, sp in burns:
+        s_, e_ = max(ts, 0.0), min(te, t)
+        if e_ > s_:
+            a = np.array(sp["acc"], dtype=float)
+            v = v + a * (e_ - s_)
+            r = r + a * ((e_ - s_) * (t - e_) + 0.5 * (e_ - s_) ** 2)
+    for ti, dv in imps:
+        if ti <= t:
+            v = v + np.array(dv, dtype=float)
+            r = r + np.array(dv, dtype=float) * (t - ti)
+    return r, v
+
+
+def _ff_fly(dyn, y0, make_events, mode, dt, n_calls, windowed=True):
+    """Fly an event list on the harness dynamics; returns the states at the call boundaries dt, 2dt, ...
+
+    one_call: only the last boundary is returned; split: one propagate call per step, the persistent event objects
+    offered as Scenario.stepForward + pruning would (burn: start <= t1 and end > t0; impulse: t0 < t <= t1) or all of
+    them every time; bulk: propagateBulk with the boundaries as output times."""
+    t_final = n_calls * dt
+    events = make_events()
+    WATCHDOG.reset()
+    if mode == "one_call":
+        out = dyn.propagate(ScenarioTime(0.0), ScenarioTime(t_final), y0.copy(), scheduled_events=events)
+        return {t_final: np.array(out, dtype=float)}
+    if mode == "bulk":
+        ts_out = [dt * (j + 1) for j in range(n_calls)]
+        out = np.array(dyn.propagateBulk([ScenarioTime(0.0)] + [ScenarioTime(t) for t in ts_out], y0[:, None].copy(),
+                                         scheduled_events=events), dtype=float)
+        if out.shape != (6, 1, n_calls):
+            raise AssertionError(f"propagateBulk returned shape {out.shape}")
+        return {t: out[:, 0, k] for k, t in enumerate(ts_out)}
+    state = y0.copy()
+    got = {}
+    for j in range(n_calls):
+        WATCHDOG.reset()
+        t0, t1 = j * dt, (j + 1) * dt
+        evs = []
+        for ev in events:
+            if _is_impulse(ev):
+                if (t0 < float(ev.time) <= t1) if windowed else (float(ev.time) > t0):
+                    evs.append(ev)
+            elif not windowed or (float(ev.start_time) <= t1 and float(ev.end_time) > t0):
+                evs.append(ev)
+        state = dyn.propagate(ScenarioTime(t0), ScenarioTime(t1), state, scheduled_events=evs)
+        got[t1] = np.array(state, dtype=float)
+    return got
+
+
+def _run_protocol_ci(res, item):
+    """One ECI burn + one ECI impulse on the gravity-free harness: every (t_start, t_end) pair of PROTO_TIMES x the
+    impulse at every instant of PROTO_TIMES x both list orders x {one call, three calls, propagateBulk}."""
+    _, seed, pairs = item
+    dt = 60.0
+    t_final = PROTO_CI_CALLS * dt
+    spec = {"kind": "eci", "acc": _spec("eci", seed)["acc"]}
+    dv = [(-1.0 if seed % 2 else 1.0) * x for x in PROTO_CI_DV]
+    y0 = np.array([7000.0, -200.0, 350.0, 1.0, -2.0, 0.5])
+    dyn = _FreeFlight()
+    for ts, te in pairs:
+        ts, te = float(ts), float(te)
+        burns = [(ts, te, spec)]
+        for ti in PROTO_TIMES:
+            where = "at_start" if ti == ts else "at_end" if ti == te else "inside" if ts < ti < te else "outside"
+            region = _ci_region(where, ti, dt)
+            for order in CI_ORDERS:
+                def make(order=order, ti=ti):
+                    evs = [ScheduledECIImpulse(ScenarioTime(ti), np.array(dv), 1), _proto2_event(ts, te, spec)]
+                    return evs if order == "impulse_first" else evs[::-1]
+
+                for mode in CI_MODES:
+                    case = {"t_start": ts, "t_end": te, "impulse_at": ti, "impulse_relation": where,
+                            "queue_order": order, "mode": mode, "dt": dt}
+                    one = ("protocol_ci", seed, [[ts, te]])
+                    try:
+                        got = _ff_fly(dyn, y0, make, mode, dt, PROTO_CI_CALLS)
+                    except Exception as exc:  # noqa: BLE001
+                        res.case("protocol_ci/velocity", case, False, nontrivial=True,
+                                 signature=f"C15/protocol_ci_{mode}/velocity/FreeFlight/{region}/error",
+                                 observed=f"{type(exc).__name__}: {exc}"[:300], outcome="error", item=one)
+                        continue
+
+                    def worst(hb, hi, got=got):
+                        return max(fw.maxabs(y[3:], _ff_state(y0, hb, hi, t)[1]) for t, y in got.items())
+
+                    err_v = worst(burns, [(ti, dv)])
+                    ok = err_v <= PROTO2_TOL_V
+                    label = "exact"
+                    if not ok:
+                        label = "unexplained"
+                        call_end = _next_grid_after(te, dt) if mode == "split" else t_final
+                        if worst(burns, []) <= PROTO2_TOL_V:
+                            label = "coincident_impulse_dropped"
+                        elif worst([(ts, call_end, spec)], [(ti, dv)]) <= PROTO2_TOL_V:
+                            label = "thrust_runs_to_call_end"
+                        elif worst([], [(ti, dv)]) <= PROTO2_TOL_V:
+                            label = "no_thrust_applied"
+                    v_end = got[t_final][3:]
+                    acc = np.array(spec["acc"])
+                    on = float((v_end - y0[3:] - (np.array(dv) if ti <= t_final else 0.0)) @ acc / (acc @ acc))
+                    res.case("protocol_ci/velocity", case, ok, nontrivial=where != "outside",
+                             signature=f"C15/protocol_ci_{mode}/velocity/FreeFlight/{region}/{label}",
+                             observed={"max_dv_km_s": err_v, "thrust_seconds": on},
+                             expected={"max_dv_km_s": f"<= {PROTO2_TOL_V}", "thrust_seconds": _overlap(ts, te, 0.0, t_final)},
+                             outcome=label, item=one)
+                    if ok:
+                        # r' = v with v piecewise linear: integrated exactly by the method (and by its interpolant)
+                        want_r = _ff_state(y0, burns, [(ti, dv)], t_final)[0]
+                        res.case("protocol_ci/position", case, fw.maxabs(got[t_final][:3], want_r) <= 1e-8,
+                                 nontrivial=where != "outside", signature=f"C15/protocol_ci_{mode}/position",
+                                 observed=got[t_final][:3], expected=want_r, item=one)
+                    res.observe(got[t_final], err_v)
+        EventStack.logAndFlushEvents()
+
+
+PROTO_CI2_TIMES = [30.0, 60.0, 61.0, 119.0, 120.0, 150.0]
+PROTO_CI2_MODES = ["split_all", "split_window", "bulk"]
+
+
+def _run_protocol_ci2(res, item):
+    """Two ECI burns (never overlapping, possibly back to back) + one ECI impulse at any instant of the alphabet -
+    up to three events at one instant - in every order of the three-event list."""
+    _, seed, chains = item
+    dt = 60.0
+    specs = _proto2_specs(("eci", "eci"), seed)
+    dv = [(-1.0 if seed % 2 else 1.0) * x for x in PROTO_CI_DV]
+    y0 = np.array([7000.0, -200.0, 350.0, 1.0, -2.0, 0.5])
+    dyn = _FreeFlight()
+    for chain in chains:
+        chain = [(float(s), float(e)) for s, e in chain]
+        burns = [(s, e, sp) for (s, e), sp in zip(chain, specs)]
+        region = _chain_region(chain, dt)
+        edges = {t for iv in chain for t in iv}
+        for ti in PROTO_CI2_TIMES:
+            n_at = sum(1 for iv in chain for t in iv if t == ti)
+            imp_region = f"{region}/impulse_with_{n_at}_burn_events"
+            for perm in _permutations(3):
+                def make(perm=perm, ti=ti):
+                    objs = [_proto2_event(*burns[0]), _proto2_event(*burns[1]),
+                            ScheduledECIImpulse(ScenarioTime(ti), np.array(dv), 1)]
+                    return [objs[i] for i in perm]
+
+                for mode in PROTO_CI2_MODES:
+                    one = ("protocol_ci2", seed, [[list(iv) for iv in chain]])
+                    case = {"intervals": [list(iv) for iv in chain], "impulse_at": ti, "list_order": list(perm),
+                            "mode": mode, "dt": dt, "relation": region, "events_at_impulse_instant": n_at + 1}
+                    try:
+                        got = _ff_fly(dyn, y0, make, "bulk" if mode == "bulk" else "split", dt, PROTO_CI_CALLS,
+                                      windowed=mode != "split_all")
+                    except Exception as exc:  # noqa: BLE001
+                        res.case("protocol_ci2/velocity", case, False, nontrivial=True,
+                                 signature=f"C15/protocol_ci2_{mode}/velocity/FreeFlight/{imp_region}/error",
+                                 observed=f"{type(exc).__name__}: {exc}"[:300], outcome="error", item=one)
+                        continue
+
+                    def worst(hb, hi, got=got):
+                        return max(fw.maxabs(y[3:], _ff_state(y0, hb, hi, t)[1]) for t, y in got.items())
+
+                    err_v = worst(burns, [(ti, dv)])
+                    ok = err_v <= PROTO2_TOL_V
+                    label = "exact"
+                    if not ok:
+                        label = "unexplained"
+                        call_end = (lambda t: _next_grid_after(t, dt)) if mode != "bulk" else (lambda _t: PROTO_CI_CALLS * dt)
+                        not_ended = [(s, call_end(e) if e == ti else e, sp) for s, e, sp in burns]
+                        if worst(burns, []) <= PROTO2_TOL_V:
+                            label = "coincident_impulse_dropped"
+                        elif not_ended != burns and worst(not_ended, [(ti, dv)]) <= PROTO2_TOL_V:
+                            label = "thrust_runs_to_call_end"
+                        else:
+                            order = [burns[i] for i in perm if i < 2]
+                            hyp = _missed_touching_start(order, dt if mode != "bulk" else PROTO_CI_CALLS * dt)
+                            if hyp is not None and worst(hyp, [(ti, dv)]) <= PROTO2_TOL_V:
+                                label = "start_at_previous_end_missed"
+                    res.case("protocol_ci2/velocity", case, ok, nontrivial=ti in edges,
+                             signature=f"C15/protocol_ci2_{mode}/velocity/FreeFlight/{imp_region}/{label}",
+                             observed={"max_dv_km_s": err_v, "equivalent_thrust_s": err_v / 1e-5},
+                             expected={"max_dv_km_s": f"<= {PROTO2_TOL_V}"}, outcome=label, item=one)
+                    res.observe(got[PROTO_CI_CALLS * dt], err_v)
+        EventStack.logAndFlushEvents()
+
+
+# ---- 2-column state, burn + ECI impulse, stepwise propagate and propagateBulk
+def _run_columns2(res, item):
+    """A (6, 2) state (as the filters propagate sigma points / particles): one finite event + one ECI impulse at its
+    start / end / inside, both list orders, through step-sized propagate calls and through propagateBulk.  (An NTW
+    impulse on a multi-column state is defined by the first column only - not part of this property.)"""
+    _, model, dt, seed = item
+    start = _epoch(seed)
+    world = World(model, dt, start, CI_STEPS)
+    times = [float((j + 1) * dt) for j in range(CI_STEPS)]
+    p1, v1 = _orbit("up", dt, seed)
+    p2, v2 = _orbit("down", dt, seed)
+    probe = world.agent(p1, v1)
+    gravity = world.gravity(probe)
+    y2 = np.column_stack([np.array(p1 + v1, dtype=float), np.array(p2 + v2, dtype=float)])
+    ts, te = dt + 1.0, 3.0 * dt
+    dv = _ci_dv("eci", seed)
+    for kind in ("ntw", "plane_change"):
+        spec = _spec(kind, seed)
+        burns = [(ts, te, spec)]
+        for where, ti in (("at_start", ts), ("at_end", te), ("inside", 2.0 * dt + 7.0)):
+            imps = [(ti, dv, "eci")]
+            region = _ci_region(where, ti, dt)
+            refs = [orc.integrate(gravity, y2[:, c], 0.0, times, burns, imps) for c in range(2)]
+            coasts = [orc.integrate(gravity, y2[:, c], 0.0, times, [], imps) for c in range(2)]
+            for order in CI_ORDERS:
+                for mode in ("split", "bulk"):
+                    level = f"columns_{mode}"
+                    dyn = world.agent(p1, v1).dynamics
+                    err, lib = None, []
+                    try:
+                        if mode == "bulk":
+                            evs = [_impulse_obj(ti, dv, "eci", TARGET_ID), _thrust_obj(spec, ts, te, TARGET_ID)]
+                            if order == "burn_first":
+                                evs = evs[::-1]
+                            WATCHDOG.reset()
+                            out = np.array(dyn.propagateBulk([ScenarioTime(0.0)] + [ScenarioTime(t) for t in times],
+                                                             y2.copy(), scheduled_events=evs), dtype=float)
+                            if out.shape != (6, 2, CI_STEPS):
+                                raise AssertionError(f"propagateBulk returned shape {out.shape}")
+                            lib = [out[:, :, k] for k in range(CI_STEPS)]
+                        else:
+                            state = y2.copy()
+                            for j in range(CI_STEPS):
+                                WATCHDOG.reset()
+                                t0, t1 = j * dt, (j + 1) * dt
+                                evs = []
+                                if t0 < ti <= t1:
+                                    evs.append(_impulse_obj(ti, dv, "eci", TARGET_ID))
+                                if ts <= t1 and te > t0:
+                                    evs.append(_thrust_obj(spec, ts, te, TARGET_ID))
+                                if order == "burn_first":
+                                    evs = evs[::-1]
+                                state = dyn.propagate(ScenarioTime(t0), ScenarioTime(t1), state, scheduled_events=evs)
+                                lib.append(np.array(state, dtype=float))
+                    except Exception as exc:  # noqa: BLE001
+                        err = f"{type(exc).__name__}: {exc}"
+                    EventStack.logAndFlushEvents()
+                    for col in range(2):
+                        case = {"model": MODELS[model], "dt": dt, "kind": kind, "column": col, "t_start": ts, "t_end": te,
+                                "impulse_at": ti, "impulse_relation": where, "queue_order": order, "mode": mode}
+                        if err is not None:
+                            res.case(f"{level}/interval", case, False, nontrivial=True,
+                                     signature=f"C15/{level}/interval/{MODELS[model]}/{region}/error", observed=err[:300],
+                                     outcome="error", item=item)
+                            continue
+                        _classify(res, level, level, model, case, [s[:, col] for s in lib], times, y2[:, col], gravity,
+                                  burns, burns, dt if mode == "split" else times[-1], impulses=imps, item=item,
+                                  coast=coasts[col], region=region, ref=refs[col],
+                                  extra_hyp=[("coincident_impulse_dropped", burns, [])])
+
+
+# ---- through a real Scenario: a finite event and an impulse event of the same target
+def _scenario_ci_patterns(dt):
+    """[(relation, (t_start, t_end), impulse instant)]"""
+    return [
+        ("at_end", (dt + 1, 2 * dt + dt // 2), 2 * dt + dt // 2),  # off the grid
+        ("at_end", (dt, 2 * dt), 2 * dt),  # on the grid
+        ("at_start", (dt + 1, 2 * dt + dt // 2), dt + 1),  # off the grid
+        ("at_start", (dt, 2 * dt + 7), dt),  # on the grid
+        ("at_end", (dt + dt // 2, 2 * dt - 1), 2 * dt - 1),  # burn inside one step
+        ("inside", (dt + 1, 2 * dt + dt // 2), 2 * dt),  # inside the burn, on the grid
+        ("at_end", (dt + 1, 3 * dt + 7), 3 * dt + 7),  # burn across two boundaries
+        ("inside", (dt + 1, 2 * dt + dt // 2), dt + dt // 2),  # inside the burn, off the grid
+    ]
+
+
+def _scenario_ci_kind(idx, seed):
+    return KINDS[(idx + seed) % len(KINDS)], ("eci", "ntw")[((idx + 1) // 2) % 2]
+
+
+def _impulse_config(ti, dv, frame, start):
+    return {"scope": "agent_propagation", "scope_instance_id": TARGET_ID, "start_time": scen.iso(start + timedelta(seconds=ti)),
+            "event_type": "impulse", "thrust_vector": list(dv), "thrust_frame": frame, "planned": False}
+
+
+def _run_scenario_ci(res, item):
+    _, model, dt, seed, pats = item
+    start = _epoch(seed)
+    for idx, where, iv, ti in pats:
+        idx, ti = int(idx), float(ti)
+        ts, te = float(iv[0]), float(iv[1])
+        kind, frame = _scenario_ci_kind(idx, seed)
+        spec = _spec(kind, seed)
+        dv = _ci_dv(frame, seed)
+        pos, vel = _orbit("up" if kind != "plane_change" else "down", dt, seed)
+        n_steps = int(np.ceil(te / dt)) + 1
+        times = [float((j + 1) * dt) for j in range(n_steps)]
+        burns, imps = [(ts, te, spec)], [(ti, dv, frame)]
+        region = _ci_region(where, ti, dt)
+        ref = coast = None
+        for cfg_order in CI_ORDERS:
+            evs = [_impulse_config(ti, dv, frame, start), _event_config(spec, ts, te, start)]
+            if cfg_order == "burn_first":
+                evs = evs[::-1]
+            cfg = scen.config(
+                start, n_steps,
+                [scen.engine(1, [scen.target_eci(TARGET_ID, pos, vel)], [scen.ground_sensor(20001, 10.0, 20.0)])],
+                physics=dt, truth_only=True, model=model, events=evs,
+            )
+            one = ("scenario_ci", model, dt, seed, [[idx, where, [ts, te], ti]])
+            case = {"model": MODELS[model], "dt": dt, "kind": kind, "t_start": ts, "t_end": te, "impulse_at": ti,
+                    "impulse_frame": frame, "impulse_relation": where, "config_order": cfg_order, "mode": "scenario"}
+            sc = scen.build(cfg)
+            agent = sc.target_agents[TARGET_ID]
+            y0 = np.array(agent.eci_state, dtype=float)
+            ref_dyn = copy.deepcopy(agent.dynamics)
+            ref_dyn.finite_thrust = None
+
+            def gravity(t, y, ref_dyn=ref_dyn):
+                return ref_dyn._differentialEquation(t, y, check_collision=False)  # noqa: SLF001
+
+            lib, err = [], None
+            seen_burn, seen_imp, orders_seen = [], [], []
+            WATCHDOG.reset()
+            try:
+                for _ in range(n_steps):
+                    sc.stepForward()
+                    sc.saveDatabaseOutput()
+                    lib.append(np.array(agent.eci_state, dtype=float))
+                    queue = list(agent.propagate_event_queue)  # the queue the step just flown was given
+                    for e in queue:
+                        if _is_impulse(e):
+                            if float(e.time) not in seen_imp:
+                                seen_imp.append(float(e.time))
+                        elif (float(e.start_time), float(e.end_time)) not in seen_burn:
+                            seen_burn.append((float(e.start_time), float(e.end_time)))
+                    if any(_is_impulse(e) for e in queue) and not all(_is_impulse(e) for e in queue):
+                        orders_seen.append("impulse_first" if _is_impulse(queue[0]) else "burn_first")
+            except Exception as exc:  # noqa: BLE001
+                err = f"{type(exc).__name__}: {exc}"
+            if err is not None:
+                res.case("scenario_ci/interval", case, False, nontrivial=True,
+                         signature=f"C15/scenario_ci/interval/{MODELS[model]}/{region}/error", observed=err[:300],
+                         outcome="error", item=one)
+                continue
+            delivered = (len(seen_burn) == 1 and len(seen_imp) == 1 and abs(seen_burn[0][0] - ts) < 1e-4
+                         and abs(seen_burn[0][1] - te) < 1e-4 and abs(seen_imp[0] - ti) < 1e-4)
+            res.case("scenario_ci/events_delivered", case, delivered, nontrivial=True,
+                     signature="C15/scenario_ci/events_delivered", observed={"burns": seen_burn, "impulses": seen_imp},
+                     expected={"burns": [[ts, te]], "impulses": [ti]}, item=one)
+            if not delivered:
+                continue
+            eff = [(seen_burn[0][0], seen_burn[0][1], spec)]
+            anchor = {"at_start": eff[0][0], "at_end": eff[0][1]}.get(where)
+            # both times come from the same datetime through the same Julian-date conversion: the coincidence survives
+            coincident = anchor is None or seen_imp[0] == anchor
+            case = dict(case, coincident_after_rounding=coincident, queue_orders_seen=sorted(set(orders_seen)))
+            res.case("scenario_ci/coincidence_survives_rounding", case, coincident, nontrivial=anchor is not None,
+                     signature="C15/scenario_ci/coincidence_survives_rounding",
+                     observed={"impulse": seen_imp[0], "burn": list(seen_burn[0])}, item=one)
+            if ref is None:
+                ref = orc.integrate(gravity, y0, 0.0, times, burns, imps)
+                coast = orc.integrate(gravity, y0, 0.0, times, [], imps)
+            _classify(res, "scenario_ci", "scenario_ci", model, case, lib, times, y0, gravity, burns, eff, dt,
+                      impulses=imps, item=one, nontrivial=coincident, coast=coast, region=region, ref=ref,
+                      extra_hyp=[("coincident_impulse_dropped", burns, [])])
+            res.states += n_steps + 1
+            res.transitions += n_steps
+            res.traces += 1
+
+
 # ---------------------------------------------------------------------------------------------- dispatch
 def run_item(item):
     res = fw.Result()
@@ -1608,6 +2178,16 @@ def run_item(item):
         _run_sched2(res, item)
     elif kind == "scenario2":
         _run_scenario2(res, item)
+    elif kind == "coincide":
+        _run_coincide(res, item)
+    elif kind == "protocol_ci":
+        _run_protocol_ci(res, item)
+    elif kind == "protocol_ci2":
+        _run_protocol_ci2(res, item)
+    elif kind == "columns2":
+        _run_columns2(res, item)
+    elif kind == "scenario_ci":
+        _run_scenario_ci(res, item)
     else:
         raise ValueError(kind)
     return res
